@@ -33,7 +33,7 @@ pub struct Site {
 pub const FP_HEX: &str = "B3:5B:68:D5:CE:84:50:55:7C:6A:55:FD:64:B5:1F:EA:C1:10:CB:36:D6:A3:52:1C:59:48:DB:3A:38:0A:34:A9";
 pub const FP_BYTES: [u8; 32] = [0xB3, 0x5B, 0x68, 0xD5, 0xCE, 0x84, 0x50, 0x55, 0x7C, 0x6A, 0x55, 0xFD, 0x64, 0xB5, 0x1F, 0xEA, 0xC1, 0x10, 0xCB, 0x36, 0xD6, 0xA3, 0x52, 0x1C, 0x59, 0x48, 0xDB, 0x3A, 0x38, 0x0A, 0x34, 0xA9];
 
-pub const SITES: [Site; 13] = [
+pub const SITES: [Site; 15] = [
     Site { url: Some("https://www.example.com"), android_host: None, rp: Some("example.com"), effective: "example.com" },
     Site { url: Some("https://example.com"), android_host: None, rp: None, effective: "example.com" },
     Site { url: Some("https://login.example.org:8443"), android_host: None, rp: None, effective: "login.example.org" },
@@ -49,6 +49,9 @@ pub const SITES: [Site; 13] = [
     // an explicit port that is the default of the *other* scheme is part of the origin
     Site { url: Some("https://example.com:80"), android_host: None, rp: None, effective: "example.com" },
     Site { url: Some("http://localhost:443"), android_host: None, rp: None, effective: "localhost" },
+    // Android callers whose certificate fingerprint contains the 6-bit groups 62 and 63 (where the base64 alphabets differ)
+    Site { url: None, android_host: Some("app2.example.net"), rp: Some("example.net"), effective: "example.net" },
+    Site { url: None, android_host: Some("pay.shop.example.org"), rp: Some("shop.example.org"), effective: "shop.example.org" },
 ];
 
 /// RP IDs that only exist at the CTAP2 level (the client would never produce them): preload site index 100 + k
@@ -60,7 +63,24 @@ impl Site {
             Url::parse(u).unwrap().into()
         } else {
             let url = Url::parse("https://assets.example.net/.well-known/assetlinks.json").unwrap();
-            Origin::Android(UnverifiedAssetLink::new("net.example.app".to_string(), FP_HEX, self.android_host.unwrap().to_string(), url).unwrap())
+            let fp = self.fingerprint();
+            let hex: Vec<String> = fp.iter().map(|b| format!("{b:02X}")).collect();
+            Origin::Android(UnverifiedAssetLink::new("net.example.app".to_string(), &hex.join(":"), self.android_host.unwrap().to_string(), url).unwrap())
+        }
+    }
+    /// the signing-certificate fingerprint of an Android caller: the repository's example for the first Android site,
+    /// otherwise bytes derived from the host that start with FB FF BF (base64url "-_-_", base64 "+/+/")
+    pub fn fingerprint(&self) -> [u8; 32] {
+        match self.android_host {
+            Some("app.example.net") | None => FP_BYTES,
+            Some(h) => {
+                let mut f = [0u8; 32];
+                f.copy_from_slice(&sha256(h.as_bytes()));
+                f[0] = 0xFB;
+                f[1] = 0xFF;
+                f[2] = 0xBF;
+                f
+            }
         }
     }
     /// the caller's origin as a relying party expects it in client data
@@ -68,7 +88,7 @@ impl Site {
         if let Some(u) = self.url {
             Url::parse(u).unwrap().origin().ascii_serialization()
         } else {
-            format!("android:apk-key-hash:{}", b64url(&FP_BYTES))
+            format!("android:apk-key-hash:{}", b64url(&self.fingerprint()))
         }
     }
 }
@@ -80,6 +100,17 @@ pub enum StoreKind {
     Ref,
     Memory,
     OptionSlot,
+    /// the reference store handed over inside one of the library's lock wrappers
+    RefInMutex,
+    RefInRwLock,
+    RefInArcMutex,
+    RefInArcRwLock,
+}
+
+impl StoreKind {
+    pub fn is_ref(self) -> bool {
+        !matches!(self, StoreKind::Memory | StoreKind::OptionSlot)
+    }
 }
 
 #[derive(Clone, Debug, Serialize, Deserialize, PartialEq)]
@@ -193,6 +224,33 @@ impl StoreAccess for RefStore {
         RefStore::clear_log(self)
     }
 }
+
+macro_rules! wrapped_store_access {
+    ($ty:ty, $get:ident) => {
+        impl StoreAccess for $ty {
+            fn snapshot(&self) -> Vec<PkSnap> {
+                self.$get().expect("store lock is free between ceremonies").snapshot()
+            }
+            fn put(&mut self, pk: Passkey) {
+                let inner: RefStore = self.$get().expect("store lock is free between ceremonies").clone();
+                inner.0.lock().unwrap().creds.push(pk);
+            }
+            fn update_log(&self) -> Vec<StoreCall> {
+                self.$get().expect("store lock is free between ceremonies").log()
+            }
+            fn clear_log(&self) {
+                self.$get().expect("store lock is free between ceremonies").clear_log()
+            }
+            fn set_update_fault(&self, code: Option<u8>) {
+                StoreAccess::set_update_fault(&*self.$get().expect("store lock is free between ceremonies"), code)
+            }
+        }
+    };
+}
+wrapped_store_access!(tokio::sync::Mutex<RefStore>, try_lock);
+wrapped_store_access!(tokio::sync::RwLock<RefStore>, try_read);
+wrapped_store_access!(std::sync::Arc<tokio::sync::Mutex<RefStore>>, try_lock);
+wrapped_store_access!(std::sync::Arc<tokio::sync::RwLock<RefStore>>, try_read);
 
 impl StoreAccess for MemoryStore {
     fn snapshot(&self) -> Vec<PkSnap> {
@@ -331,6 +389,11 @@ pub fn verify_registration(cred: &CreatedPublicKeyCredential, site: &Site, op: &
 
 /// The relying-party checks on a successful assertion (C03).
 pub fn verify_assertion(res: &AuthenticatedPublicKeyCredential, site: &Site, op: &AuthOp, model: &[ModelCred]) -> Result<usize, String> {
+    verify_assertion_opts(res, site, op, model, true)
+}
+
+/// `judge_rp` = false: the RP binding of the credential used is left to C05 (stores outside the lookup contract)
+pub fn verify_assertion_opts(res: &AuthenticatedPublicKeyCredential, site: &Site, op: &AuthOp, model: &[ModelCred], judge_rp: bool) -> Result<usize, String> {
     check_client_data(&res.response.client_data_json, "webauthn.get", &op.challenge, &site.expected_origin(), &op.cd)?;
     if res.id != b64url(&res.raw_id) {
         return Err(format!("id {:?} is not base64url(rawId)", res.id));
@@ -339,7 +402,7 @@ pub fn verify_assertion(res: &AuthenticatedPublicKeyCredential, site: &Site, op:
         return Err(format!("returned credential id {} was never registered", crate::core::hex(&res.raw_id)));
     };
     let m = &model[mi];
-    if m.rp != site.effective {
+    if judge_rp && m.rp != site.effective {
         return Err(format!("credential used belongs to RP {:?}, the ceremony is for {:?}", m.rp, site.effective));
     }
     let ad = authdata::decode(&res.response.authenticator_data)?;
@@ -435,7 +498,8 @@ impl<S: StoreAccess> Runner<S> {
         let s = if site >= 100 { &ctap_only } else { &SITES[site % SITES.len()] };
         let id = sha256(&[b"preload".as_slice(), &seed.to_be_bytes()].concat())[..16 + (seed as usize % 17)].to_vec();
         let uh = with_handle.then(|| format!("handle-{}", seed % 3).into_bytes());
-        let hm = self.cfg.hmac.enabled().then(|| (sha256(&[b"uv".as_slice(), &seed.to_be_bytes()].concat()).to_vec(), self.cfg.hmac.without_uv().then(|| sha256(&[b"nouv".as_slice(), &seed.to_be_bytes()].concat()).to_vec())));
+        // every third pre-loaded credential holds no hmac-secret material (a PRF request on it is refused)
+        let hm = (self.cfg.hmac.enabled() && seed % 3 != 2).then(|| (sha256(&[b"uv".as_slice(), &seed.to_be_bytes()].concat()).to_vec(), self.cfg.hmac.without_uv().then(|| sha256(&[b"nouv".as_slice(), &seed.to_be_bytes()].concat()).to_vec())));
         let pk = crate::model::util::make_passkey(seed, s.effective, &id, uh.as_deref(), counter, hm);
         let sn = snap(&pk);
         self.client.authenticator_mut().store_mut().put(pk);
@@ -458,7 +522,7 @@ impl<S: StoreAccess> Runner<S> {
         let exclude = match (op.exclude % 4, self.kind) {
             (0, _) => None,
             (1, _) => Some(vec![]),
-            (3, StoreKind::Ref) => Some(self.model.iter().filter(|m| m.rp != site.effective).take(2).map(|m| cer::descriptor_full(&m.id, true, op.uv)).chain([cer::descriptor(b"excluded-but-never-held")]).collect()),
+            (3, k) if k.is_ref() => Some(self.model.iter().filter(|m| m.rp != site.effective).take(2).map(|m| cer::descriptor_full(&m.id, true, op.uv)).chain([cer::descriptor(b"excluded-but-never-held")]).collect()),
             _ => Some(vec![cer::descriptor(b"excluded-but-never-held"), cer::descriptor_full(b"another-id-nobody-holds", op.uv % 2 == 0, op.uv)]),
         };
         let ext = (op.ext & 7 != 0).then(|| passkey_types::webauthn::AuthenticationExtensionsClientInputs {
@@ -626,6 +690,9 @@ impl<S: StoreAccess> Runner<S> {
                     if let (Some(a), Some(prev)) = (after.iter().find(|s| s.id == m.id), m.counter) {
                         if a.counter == Some(prev.saturating_add(1)) {
                             m.counter = a.counter;
+                        } else if self.oracles.c08 && a.counter.is_some_and(|c| c < prev) {
+                            // the next success would then report a value that is not greater than the last one
+                            return Err(format!("a failed authentication ({e:?}) moved the stored counter of credential {} backwards: {prev} -> {:?}", crate::core::hex(&m.id), a.counter));
                         }
                     }
                 }
@@ -804,6 +871,10 @@ pub fn run_history(h: &History, oracles: Oracles) -> Result<Stats, String> {
         StoreKind::Ref => go(RefStore::new(h.disc), h, oracles),
         StoreKind::Memory => go(MemoryStore::new(), h, oracles),
         StoreKind::OptionSlot => go(None::<Passkey>, h, oracles),
+        StoreKind::RefInMutex => go(tokio::sync::Mutex::new(RefStore::new(h.disc)), h, oracles),
+        StoreKind::RefInRwLock => go(tokio::sync::RwLock::new(RefStore::new(h.disc)), h, oracles),
+        StoreKind::RefInArcMutex => go(std::sync::Arc::new(tokio::sync::Mutex::new(RefStore::new(h.disc))), h, oracles),
+        StoreKind::RefInArcRwLock => go(std::sync::Arc::new(tokio::sync::RwLock::new(RefStore::new(h.disc))), h, oracles),
     }
 }
 
@@ -886,5 +957,5 @@ pub fn auth_op(sites: Vec<usize>) -> impl Strategy<Value = AuthOp> {
 }
 
 pub fn auth_cfg() -> impl Strategy<Value = AuthCfg> {
-    (any::<bool>(), proptest::option::weighted(0.7, any::<u8>()), any::<[u8; 16]>(), proptest::bool::weighted(0.5)).prop_map(|(counter, id_len, aaguid, zero)| AuthCfg { counter, id_len, hmac: HmacCfg::None, aaguid: if zero { [0; 16] } else { aaguid } })
+    (any::<bool>(), proptest::option::weighted(0.7, any::<u8>()), any::<[u8; 16]>(), proptest::bool::weighted(0.5), prop_oneof![3 => Just(0u8), 1 => 1u8..4]).prop_map(|(counter, id_len, aaguid, zero, transports)| AuthCfg { counter, id_len, hmac: HmacCfg::None, aaguid: if zero { [0; 16] } else { aaguid }, transports })
 }
